@@ -3150,6 +3150,16 @@ func memTableSizePositiveGroup(c *Ctx, rule string) {
 		if normalises(open, "NoKV.Options", call.(ssa.Instruction)) {
 			ok = true
 		}
+		// or in a same-package helper that Open calls on every path to NewLSM
+		for _, h := range Calls(open, false, func(*ssa.CallCommon) bool { return true }) {
+			cal := h.Common().StaticCallee()
+			if cal == nil || cal.Blocks == nil || cal.Pkg != open.Pkg {
+				continue
+			}
+			if pre, _ := MustPrecede(open, call.(ssa.Instruction), []ssa.Instruction{h.(ssa.Instruction)}); pre && normalises(cal, "NoKV.Options", nil) {
+				ok = true
+			}
+		}
 	}
 	if !ok {
 		if nf := c.FnOpt("lsm", "NewLSM"); nf != nil && normalises(nf, "lsm.Options", nil) {
